@@ -358,6 +358,7 @@ func init() {
 			{"ledger/babbage", "TxTypeBabbage", "txTypeBabbageEra"},
 			{"ledger/conway", "TxTypeConway", "txTypeConwayEra"},
 			{"ledger/dijkstra", "TxTypeDijkstra", "txTypeDijkstraEra"},
+			{"ledger/dijkstra", "MaxTxSize", "dijkstraDecodeMaxTxSize"},
 			{"ledger/common", "ProtocolVersionConway", "protocolVersionConway"},
 			{"ledger/common", "ProtocolVersionPlomin", "protocolVersionPlomin"},
 			{"ledger/common", "ProtocolVersionVanRossem", "protocolVersionVanRossem"},
